@@ -24,7 +24,7 @@ ASSUMPTIONS = [
 def required(tier):
     return ["sel:None", "sel:empty_list", "sel:empty_tuple", "sel:singleton", "sel:subset", "sel:superset", "sel:absent_only", "sel:duplicates",
             "empty_selection_on_nonempty_file", "replace:valid", "replace:empty", "replace:garbage", "replace:invalid_forced_first",
-            "replace:invalid_disorder", "all_40_pairs_selected"]
+            "replace:invalid_disorder", "all_40_pairs_selected", "from_filepath_selection_history"]
 
 
 def shards(tier, seed):
@@ -81,6 +81,50 @@ def check_selection(rec, text, full_ob, present, sel, label, container):
         if len(present) >= 2:
             rec.key([text, case["selection"], case["container"]])
     return ok
+
+
+def path_history(rec, rng, text, full_ob, present, ppairs):
+    """the same FILE read several times through Chart.from_filepath with different selections, one after the other:
+    every answer must be the one its own selection demands, whatever was asked before"""
+    import os
+    import pathlib
+    import tempfile
+
+    d = tempfile.mkdtemp(prefix="vmon-c13-")
+    try:
+        path = pathlib.Path(d) / "chart.chart"
+        path.write_bytes(text.encode("utf-8"))
+        seq = [[], None, [], None]
+        if ppairs:
+            sub = rng.sample(ppairs, max(1, len(ppairs) // 2))
+            seq += [sub, None, tuple(sub), [], list(reversed(sub)), None]
+        rng.shuffle(seq)
+        seq = [[], None] + seq if rng.random() < 0.5 else [None, []] + seq
+        for k, sel in enumerate(seq):
+            rec.ev()
+            case = {"text": text, "selection": None if sel is None else [list(p) for p in sel], "container": "list", "via_path_history":
+                    [None if s is None else [list(p) for p in s] for s in seq[:k + 1]]}
+            try:
+                c = harness.Chart.from_filepath(path) if sel is None else harness.Chart.from_filepath(path, want_tracks=type(sel)(harness.pairs(list(sel))))
+            except Exception as e:  # noqa
+                rec.violation("restricted-parse-rejected", f"from_filepath #{k} with selection {case['selection']} raised {harness.exc_str(e)}", case,
+                              "from_filepath-rejected")
+                return
+            ob = harness.obs(c)
+            expect = set(present) if sel is None else {f"{i}/{d_}" for i, d_ in sel} & set(present)
+            if set(ob["tracks"]) != expect:
+                rec.violation("selection", f"from_filepath call #{k} of the history {case['via_path_history']} returned tracks "
+                              f"{sorted(ob['tracks'])}, expected {sorted(expect)}", case, "selection-depends-on-earlier-from_filepath-calls")
+                return
+            if shared(ob) != shared(full_ob) or any(ob["tracks"][t] != full_ob["tracks"][t] for t in expect):
+                rec.violation("selected-track-differs", f"from_filepath call #{k} (selection {case['selection']}): content differs from the "
+                              "unrestricted from_file parse", case, "from_filepath-content-differs")
+                return
+        rec.cls("from_filepath_selection_history")
+    finally:
+        import shutil
+
+        shutil.rmtree(d, ignore_errors=True)
 
 
 def selections(rng, present_pairs):
@@ -174,6 +218,8 @@ def run_shard(shard, rec, tier, seed):
                 break
         for kind in ("valid", "empty", "garbage", "invalid_forced_first", "invalid_disorder"):
             check_replacement(rec, rng, case, full_ob, kind)
+        if i % 3 == 0 and "\r" not in case["text"]:
+            path_history(rec, rng, case["text"], full_ob, present, ppairs)
         if i < 1:
             rec.sample({"tracks": present[:6], "selections_tried": [s[1] for s in selections(rng, ppairs)]})
         if rec.full:
@@ -190,6 +236,16 @@ def finalize(agg, tier):
 
 def replay(case, rec):
     harness.setup()
+    if "via_path_history" in case:
+        import random
+
+        full = harness.parse(case["text"])
+        if full.ok:
+            ob = harness.obs(full.chart)
+            present = sorted(ob["tracks"])
+            for _ in range(4):
+                path_history(rec, random.Random(_), case["text"], ob, present, [tuple(k.split("/")) for k in present])
+        return
     if "victim" in case:
         base = harness.parse(case["baseline_text"])
         if not base.ok:
